@@ -58,12 +58,17 @@ def run(chk):
         vlib.report_rejects(chk, rej, "toy-completeness")
         for p in progs[:1]:
             chk.sample({"random_program": p})
+    # "small" programs: free constraints (no by-construction constants) over values and coefficients from -2 .. 3 - whether the statement
+    # holds is decided by the assignment alone, and the specification's Satisfied() is the oracle: satisfied => proved and accepted
+    ns = 500 if q else 6000
+    small = vlib.genprogs(chk, chk.seed + 31, ns, vlib.TOY_P["toy31723"], "small", "small")
+    vlib.toy_ideal(chk, "toy31723", small, "TraceIdealCompleteness", "toy-completeness-small", "small31723", fl=vlib.flags(E=1))
     chk.finish(
         rule="TLC (MC_Builder, Rich) enumerates every program of at most %d calls built from commit/allocate/allocate_multiplier/multiply/"
              "constrain/defer/phase switch/challenge with linear-combination templates over returned handles and by-construction constants; "
              "the behaviours whose model assignment satisfies every constraint and gate are replayed on secq256k1, zorro and curve25519 (plus "
              "capacity and full-width-value variants) and must prove and verify; seeded random honest programs run on toy79/toy31723 are "
-             "validated by TLC (IdealCompleteness over the recorded calls). distinct = distinct (curve, program) pairs with >= 1 call" % depth,
+             "validated by TLC (IdealCompleteness over the recorded calls), and so are random programs with free constraints over small values (satisfied or not by the assignment alone; the specification's Satisfied is the oracle). distinct = distinct (curve, program) pairs with >= 1 call" % depth,
         assumptions=["ideal verdicts on 256-bit curves ignore events of probability ~2^-250",
                      "on toy curves runs that hit a zero challenge or an identity commitment are validated up to that event only"])
 
